@@ -625,6 +625,11 @@ fn spawn_async_ao_list_in_task'''),
         ('assignment-only-command-always-succeeds', 'brush-core/src/interp.rs', "            if status_change_count_before_expansion == context.shell.last_exit_status_change_count()\n            {\n                context.shell.set_last_exit_status(0);\n            }", "            context.shell.set_last_exit_status(0);"),
         ('assignment-only-command-compares-with-greater-than', 'brush-core/src/interp.rs', "            if status_change_count_before_expansion == context.shell.last_exit_status_change_count()\n            {", "            if status_change_count_before_expansion > context.shell.last_exit_status_change_count()\n            {"),
     ],
+    'U27c': [
+        ('only-a-leading-quote-turns-expansion-off', 'brush-parser/src/parser/peg.rs', [("specific_operator(\"<<-\") here_tag:here_tag() doc:[_] closing_tag:here_tag() {\n                let requires_expansion = !here_tag.to_str().contains(['\\'', '\"', '\\\\']);", "specific_operator(\"<<-\") here_tag:here_tag() doc:[_] closing_tag:here_tag() {\n                let requires_expansion = !here_tag.to_str().starts_with(['\\'', '\"', '\\\\']);")]),
+        ('plain-operator-strips-tabs', 'brush-parser/src/parser/peg.rs', "                    remove_tabs: false,", "                    remove_tabs: true,"),
+        ('backslash-in-the-delimiter-does-not-count-as-quoting', 'brush-parser/src/parser/peg.rs', [("specific_operator(\"<<\") here_tag:here_tag() doc:[_] closing_tag:here_tag() {\n                let requires_expansion = !here_tag.to_str().contains(['\\'', '\"', '\\\\']);", "specific_operator(\"<<\") here_tag:here_tag() doc:[_] closing_tag:here_tag() {\n                let requires_expansion = !here_tag.to_str().contains(['\\'', '\"', '\"']);")]),
+    ],
     'U27b': [
         ('end-tag-match-attempted-on-an-empty-token-before-the-body', 'brush-parser/src/tokenizer.rs', "                    if (matches!(self.cross_state.here_state, HereState::InHereDocs)\n                        || state.started_token())\n                        && self.remove_here_end_tag(&mut state, &mut result, false)?\n                    {", "                    if self.remove_here_end_tag(&mut state, &mut result, false)? {"),
         ('end-tag-reported-matched-without-delimiting', 'brush-parser/src/tokenizer.rs', "                // Delimit the end of the here-document body.\n                *result = state.delimit_current_token(\n                    TokenEndReason::HereDocumentBodyEnd,\n                    &mut self.cross_state,\n                )?;\n", ""),
